@@ -247,6 +247,10 @@ def rule_g(ctx):
 
 
 def run(ctx):
+    from rules.shared_rules import incoming_slot_route_paired
+    from rules.shared_rules import cid_replacement_only_for_retired
+    cid_replacement_only_for_retired(ctx, 'c', 'cid_replacement_only_for_retired_cid')
+    incoming_slot_route_paired(ctx, 'g', 'incoming_slot_freed_with_its_route')
     guarded_reads(ctx, 'a')
     rule_b(ctx)
     rule_c(ctx)
